@@ -83,7 +83,7 @@ var nonFinite = []float64{math.NaN(), math.Inf(1), math.Inf(-1), math.Float64fro
 
 func genFloat(r *lib.Rng, allowNonFinite bool) float64 {
 	switch {
-	case allowNonFinite && r.Chance(1, 12):
+	case allowNonFinite && r.Chance(1, 8):
 		return nonFinite[r.Intn(len(nonFinite))]
 	case r.Chance(1, 2):
 		return edgeFloats[r.Intn(len(edgeFloats))]
@@ -743,7 +743,7 @@ func main() {
 		"multibyte, invalid UTF-8, 1.5-4 kB; extreme ints; floats incl. subnormals, extremes, -0, NaN and infinities; NULLs) through " +
 		"formats.NewJSONFormatter and formats.NewCSVFormatter driven as outputs/eager does; non-trivial = some value is a string needing " +
 		"escaping/quoting, an int beyond 2^53, a float or a nested value; distinct by full case text"
-	n := f.Cases(260, 2600)
+	n := f.Cases(220, 2200)
 	for i := 0; i < n; i++ {
 		r := rng.Fork()
 		nf := 1 + r.Intn(4)
@@ -752,7 +752,7 @@ func main() {
 		for k := range fields {
 			fields[k] = physical.SchemaField{Name: names[k], Type: genType(r, 2)}
 		}
-		nonFin := r.Chance(1, 3)
+		nonFin := r.Chance(1, 2)
 		nr := 1 + r.Intn(4)
 		rows := make([][]octosql.Value, nr)
 		nontrivial := false
